@@ -150,6 +150,7 @@ type gWorld struct {
 	lateIDs    []ecs.ID          // component types registered during the history (lateTypes)
 	maps       map[string]gMap   // MapN helper objects are created once per world and reused (also across ops)
 	exch       *generic.Exchange // the world's long-lived Exchange helper
+	exchRel    int               // relation type index + 1 the helper is configured for (0: none)
 	Wg, Wc     *ecs.World
 	ids        []ecs.ID
 	ents       []*gEnt
